@@ -275,4 +275,42 @@ theorem v4_text_forms (ip len : Nat) (hip : ip < 2 ^ 32) (hlen : len ≤ 32) (f 
 example : V4Form.Ok 24 (.spaceMask true [' ', '\t']) := ⟨fun _ => by omega, by simp, by decide⟩
 example : V4Form.Ok 8 (.pfx "008".toList) := ⟨by simp, by decide, by decide⟩
 
+/-- **IPv4 rejects** (no silent truncation or coercion): whenever the text constructor returns an
+object, the stripped input *is* one of the accepted spellings of exactly that object's `(ip, len)` –
+the address part is the canonical dotted quad (no leading zeros, every octet ≤ 255, nothing
+before or after it), the mask part a run of ASCII digits with value `len ≤ 32` or the canonical
+dotted quad of the netmask / hostmask of `len`.  Every other text raises. -/
+theorem v4_rejects (input : Str) (o : Obj) (h : V4.fromStr input = .ok o) :
+    ∃ ip len f, ip < 2 ^ 32 ∧ len ≤ 32 ∧ V4Form.Ok len f ∧ strip input = V4Form.render ip len f ∧ o = mk4 ip len := by
+  obtain ⟨ip, len, hip, hlen, ho, hform⟩ := V4.fromStr_inv input o h
+  have maskCase : ∀ mv, ReadsAs mv len →
+      ∃ host : Bool, (host = true → 0 < len ∧ len < 32) ∧ mv = maskOf len host := by
+    intro mv hr
+    rcases (readsAs_sound mv len hr).2 with e | ⟨h1, h2, e⟩
+    · exact ⟨false, (fun hh => by cases hh), e⟩
+    · exact ⟨true, fun _ => ⟨h1, h2⟩, e⟩
+  rcases hform with ⟨h32, hs⟩ | ⟨p, hp1, hp2, hp3, hs⟩ | ⟨mv, _, hr, hs⟩ | ⟨mv, ws, _, hr, hw1, hw2, hs⟩
+  · exact ⟨ip, len, .plain, by omega, hlen, h32, by rw [hs, dotted_eq]; rfl, ho⟩
+  · exact ⟨ip, len, .pfx p, by omega, hlen, ⟨hp1, hp2, hp3⟩, by rw [hs, dotted_eq]; rfl, ho⟩
+  · obtain ⟨host, hh, rfl⟩ := maskCase mv hr
+    exact ⟨ip, len, .slashMask host, by omega, hlen, hh, by rw [hs, dotted_eq, dotted_eq]; rfl, ho⟩
+  · obtain ⟨host, hh, rfl⟩ := maskCase mv hr
+    exact ⟨ip, len, .spaceMask host ws, by omega, hlen, ⟨hh, hw1, hw2⟩, by rw [hs, dotted_eq, dotted_eq]; rfl, ho⟩
+
+/-- hence a text that is not such a spelling is refused -/
+theorem v4_invalid_raises (input : Str)
+    (h : ¬ ∃ ip len f, ip < 2 ^ 32 ∧ len ≤ 32 ∧ V4Form.Ok len f ∧ strip input = V4Form.render ip len f) :
+    ∃ e, V4.fromStr input = .error e := by
+  cases hr : V4.fromStr input with
+  | error e => exact ⟨e, rfl⟩
+  | ok o =>
+    obtain ⟨ip, len, f, h1, h2, h3, h4, _⟩ := v4_rejects input o hr
+    exact absurd ⟨ip, len, f, h1, h2, h3, h4⟩ h
+
+-- non-vacuity: truncation candidates are refused by the model (octet 256, length 33, leading zero, junk suffix)
+example : V4.fromStr "256.1.1.1".toList = .error .addressValueError := by rfl
+example : V4.fromStr "1.2.3.4/33".toList = .error .netmaskValueError := by rfl
+example : V4.fromStr "01.2.3.4".toList = .error .addressValueError := by rfl
+example : V4.fromStr "1.2.3.4/24x".toList = .error .addressValueError := by rfl
+
 end Ccp.C11
